@@ -686,6 +686,7 @@ func (p *Policy) BlockAccountInternalDeferrable(ic *interop.Context, hash util.U
 			cache.blockedAccounts = append(cache.blockedAccounts[:i+1], cache.blockedAccounts[i:]...)
 			cache.blockedAccounts[i] = hash
 		}
+		p.invalidateNEOCandidates(ic.DAO)
 		handleRes(true)
 	}
 
@@ -715,7 +716,21 @@ func (p *Policy) unblockAccount(ic *interop.Context, args []stackitem.Item) stac
 	ic.DAO.DeleteStorageItem(p.ID, key)
 	cache := ic.DAO.GetRWCache(p.ID).(*PolicyCache)
 	cache.blockedAccounts = append(cache.blockedAccounts[:i], cache.blockedAccounts[i+1:]...)
+	p.invalidateNEOCandidates(ic.DAO)
 	return stackitem.NewBool(true)
+}
+
+// neoCandidatesInvalidator is implemented by the NEO contract: the set of
+// candidates it elects the committee from excludes blocked accounts, so its
+// cached election results are stale once the blocked accounts list changes.
+type neoCandidatesInvalidator interface {
+	InvalidateCandidatesCache(d *dao.Simple)
+}
+
+func (p *Policy) invalidateNEOCandidates(d *dao.Simple) {
+	if n, ok := p.NEO.(neoCandidatesInvalidator); ok {
+		n.InvalidateCandidatesCache(d)
+	}
 }
 
 func (p *Policy) getMaxValidUntilBlockIncrement(ic *interop.Context, _ []stackitem.Item) stackitem.Item {
